@@ -48,7 +48,7 @@ fn pow(b: u64, e: u32) -> u64 {
 }
 
 /// number of strings of length <= l over an alphabet of t tokens
-fn count_upto(t: u64, l: u32) -> u64 {
+pub fn count_upto(t: u64, l: u32) -> u64 {
     (0..=l).map(|k| pow(t, k)).sum()
 }
 
@@ -75,7 +75,7 @@ pub fn soup(mut idx: u64, t: u64) -> String {
     s
 }
 
-fn fill(ctx_i: usize, syn: Syn, hole: &str) -> String {
+pub fn fill(ctx_i: usize, syn: Syn, hole: &str) -> String {
     let (_, scss, sass) = CONTEXTS[ctx_i];
     let t = if syn == Syn::Sass { sass } else { scss };
     t.replace('\u{1}', hole)
@@ -216,9 +216,9 @@ fn run_list(ctx: &Ctx, name: &'static str, bound: &str, n: u64, gen: &(dyn Fn(u6
     }
 }
 
-const PRE: &str = "@use \"sass:math\";@use \"sass:list\";@use \"sass:map\";@use \"sass:string\";@use \"sass:color\";@use \"sass:selector\";@use \"sass:meta\";\n";
+pub const PRE: &str = "@use \"sass:math\";@use \"sass:list\";@use \"sass:map\";@use \"sass:string\";@use \"sass:color\";@use \"sass:selector\";@use \"sass:meta\";\n";
 
-fn all_fn_names() -> Vec<String> {
+pub fn all_fn_names() -> Vec<String> {
     let mut v: Vec<String> = GLOBAL_FNS.iter().map(|s| s.to_string()).collect();
     for (m, fs) in MODULE_FNS {
         for f in *fs {
@@ -229,7 +229,7 @@ fn all_fn_names() -> Vec<String> {
 }
 
 /// argument tuples: arity 0..=max over universe u; index -> tuple text
-fn tuple(mut idx: u64, u: &[&str], max: u32) -> String {
+pub fn tuple(mut idx: u64, u: &[&str], max: u32) -> String {
     let t = u.len() as u64;
     let mut len = 0u32;
     loop {
@@ -253,7 +253,7 @@ const BINOPS: &[&str] = &["+", "-", "*", "/", "%", "==", "!=", "<", ">", "<=", "
 const UNOPS: &[&str] = &["-", "+", "/", "not "];
 
 /// syntactic positions a value can be interpolated / placed into
-const POSITIONS: &[&str] = &[
+pub const POSITIONS: &[&str] = &[
     "a#{\u{1}}{b:c}",
     "#{\u{1}}{b:c}",
     "a{#{\u{1}}:c}",
